@@ -4,6 +4,7 @@ from props import common, mix, disp
 
 THM = "NextestModel.Thm.C17"
 GEN = ["tables"]
+GEN_GROUPS = ["xml", "placeholders"]
 CHECK_MODULES = ["NextestModel.Lemmas.Junit", "NextestModel.Model.Junit", "NextestModel.Model.XmlText"]
 TRUSTED = ["model: Model/Dispatcher (RunStats bookkeeping) and Model/Junit (MetadataJunit::write_event: suites, cases, status, reruns, store rule; quick-junit's add_test_case counters), both corresponded in-process",
            "guarded hooks ExecutionStatuses::verif_new, RunStats::verif_on_test_finished / verif_on_setup_script_finished, config::VerifScriptId (constructors / callers of crate-private functions)",
